@@ -370,14 +370,12 @@ func (v *vState) flush() {
 	}
 	v.mu.Lock()
 	defer v.mu.Unlock()
-	missing := []string{}
+	required := []string{}
 	if !v.replay && v.only == "" {
 		for n := range v.required {
-			if v.classes[n] == 0 {
-				missing = append(missing, n)
-			}
+			required = append(required, n)
 		}
-		sort.Strings(missing)
+		sort.Strings(required)
 	}
 	samples := append(append([]any{}, v.samplesHead...), v.samplesTail...)
 	st := map[string]any{
@@ -389,7 +387,7 @@ func (v *vState) flush() {
 		"extra":           v.extra,
 		"known_findings":  v.known,
 		"violations":      v.violations,
-		"missing_classes": missing,
+		"required_classes": required,
 		"inconclusive":    v.inconclusive,
 		"hash_capped":     v.hashCapped,
 		"harness_error":   v.harnessErr,
